@@ -91,6 +91,48 @@ Wrapped(pay) ==
    fbit |-> NoBit]
 HonestEth(h, to) == Wrapped(BasePay(ChainOf(h), to))
 
+(* ------------------------------------------------------------- pool context *)
+(* Authenticity is a property of the transaction alone: what the pool holds when a
+   transaction is offered (nothing; the honest original pending, executed in a block,
+   executed and rolled back; another transaction of the same sender pending; the very
+   same transaction delivered before) must not change the verdict. *)
+Contexts == {"empty", "orig-pending", "orig-executed", "orig-unmarked", "other-pending", "twice"}
+
+Rehash0(tx) == [tx EXCEPT !.Hash = [of |-> HashedOf(tx.f), dmg |-> "none", bit |-> 0]]
+(* another honest transaction of the sender of base (next nonce) *)
+OtherOfSender(base) ==
+  IF base.kind = "native"
+    THEN LET t == Rehash0([base EXCEPT !.f.Nonce = 1]) IN
+         [t EXCEPT !.Sign = [k |-> base.Sign.k, sof |-> t.Hash.of, dmg |-> "none", bit |-> 0]]
+    ELSE [base EXCEPT !.pay.nonce = 1]
+
+(* the abstract pool in which tx is offered at height h *)
+PoolOf(ctx, base, tx, h) ==
+  CASE ctx = "empty"         -> [pending |-> {}, executed |-> {}]
+    [] ctx = "orig-pending"  -> [pending |-> {base}, executed |-> {}]
+    [] ctx = "orig-executed" -> [pending |-> {}, executed |-> {base}]
+    [] ctx = "orig-unmarked" -> [pending |-> {base}, executed |-> {}]
+    [] ctx = "other-pending" -> [pending |-> {OtherOfSender(base)}, executed |-> {}]
+    [] ctx = "twice"         -> [pending |-> IF Accept(tx, h) THEN {tx} ELSE {}, executed |-> {}]
+
+(* the reference: admission never looks at the pool *)
+Admit(pool, tx, h) == Accept(tx, h)
+
+(* identity under which the pool files a transaction (its declared hash) *)
+HashId(tx) == IF tx.kind = "native" THEN <<"n", tx.Hash>>
+              ELSE <<"e", tx.f.Hash, IF tx.f.Hash = "pay" THEN tx.pay ELSE tx.pay.nonce,
+                     IF tx.fbit.field = "Hash" THEN tx.fbit.bit ELSE 0>>
+(* an admitted transaction is filed unless one with the same declared hash is known *)
+Pooled(pool, tx, h) == Admit(pool, tx, h) /\ HashId(tx) \notin {HashId(p) : p \in pool.pending \cup pool.executed}
+
+(* negative control, never the oracle: a pool-dependent shortcut ("a transaction whose declared hash
+   and signature equal those of a pending one was verified before") - the context dimension of the
+   case lattice must contain cases on which it differs from Admit *)
+ShortcutAdmit(pool, tx, h) ==
+  \/ Accept(tx, h)
+  \/ /\ tx.kind = "native" /\ tx.Sign.dmg # "nil"
+     /\ \E p \in pool.pending : p.kind = "native" /\ p.Hash = tx.Hash /\ p.Sign = tx.Sign
+
 (* --------------------------------------------------------------- mutations *)
 (* native: change a hashed field; optionally recompute the hash; optionally re-sign *)
 SetField(tx, n, v) == [tx EXCEPT !.f[n] = v]
